@@ -212,6 +212,10 @@ def run_world(facts, rep, w, floors):
             n_discards += 1
             rep.fail("R20.1", root.id, "%s passed as a function value" % sh,
                      "error-discarding combinator used as a function value", line)
+        for (bb, nm, line) in rf.nested_discards():
+            rep.fail("R20.1", root.id, "inner Result of `%s` is never looked at" % nm,
+                     "the value is Result<Result<_, error>, _> and only its outer variant is examined: the inner failure (the operation's own "
+                     "outcome) is dropped and the caller is told Ok", line)
         for (bb, nm, line) in rf.overwritten_results():
             rep.fail("R20.1", root.id, "Result `%s` is assigned again while it may hold an Err" % nm,
                      "the earlier failure is overwritten before anything acts on it: the operation goes on and can report success", line)
@@ -225,6 +229,27 @@ def run_world(facts, rep, w, floors):
                 ty = b.local_ty(t.dest.local)
                 if is_result_ty(ty) and tracked_err(ty):
                     n_results += 1
+        rep.analysed.add(b.id)
+    # the backends themselves (where the OS / the map is asked): the purely structural kinds of dropped failures — a Result that
+    # is never read, one that is overwritten unexamined, an inner Result whose outer wrapper alone is matched.  (What a backend
+    # does with the error *kinds* of its std calls is Table O's business.)
+    backend_files = tuple("src/" + ("async_vfs/" if w.asyncw else "") + "impls/%s.rs" % m for m in ("physical", "memory"))
+    for b in facts.bodies:
+        if b.file not in backend_files or "::tests::" in b.id:
+            continue
+        root = facts.body(b.root) if b.kind == "Closure" and b.root else b
+        if root is None or (root.impl and root.impl.get("derived")):
+            continue
+        rfb = ResultFlow(facts, b)
+        for (bb, nm, line) in rfb.nested_discards():
+            rep.fail("R20.1", root.id, "inner Result of `%s` is never looked at" % nm,
+                     "the value is Result<Result<_, error>, _> and only its outer variant is examined: the inner failure (the operation's own "
+                     "outcome) is dropped and the caller is told Ok", line)
+        for (bb, nm, line) in rfb.overwritten_results():
+            rep.fail("R20.1", root.id, "Result `%s` is assigned again while it may hold an Err" % nm,
+                     "the earlier failure is overwritten before anything acts on it", line)
+        for (bb, sh, line) in rfb.unused_results():
+            rep.fail("R20.1", root.id, "unused result of %s" % sh, "a Result carrying VfsError/io::Error is dropped unread", line)
         rep.analysed.add(b.id)
     # positive control on the real code: the consumer classifier must recognise discarding combinators where they
     # legitimately occur (PhysicalFS::metadata turns unsupported timestamps into None with `.ok()`)
